@@ -486,6 +486,18 @@ def evalWordSrc (src : Bytes) (env : VarEnv) : Option Bytes :=
   | .ok [w] => some (w.subst env)
   | _ => none
 
+def joinSp : List Bytes → Bytes
+  | [] => []
+  | [a] => a
+  | a :: b :: r => a ++ SP :: joinSp (b :: r)
+
+/-- The string `eval` builds from its arguments (script words `src`, variables from `env`): the expanded arguments
+    joined by single blanks. -/
+def evalArgs (src : Bytes) (env : VarEnv) : Option Bytes :=
+  match shWords src with
+  | .ok ws => some (joinSp (ws.map (Word.subst env)))
+  | .error _ => none
+
 /-- `$(printf FMT "$v" | sed PROG)` where FMT and PROG are given as script words. -/
 def printfSedSubst (progSrc fmtSrc : Bytes) (v : Bytes) : Option Bytes := do
   let prog ← litWord progSrc
